@@ -421,7 +421,42 @@ class Fn:
         return ("rv", d[1], d[2], rv)
 
     # --- access paths (normal form for def-use rules) --------------------------------------
-    def apath_place(self, pl, depth=16):
+    def reaching(self, l, at):
+        """Definitions of local l that can be the one in force at `at` = (block, statement index or None for the terminator):
+        flow-sensitive where apath is not (a `let mut res = a(); if res.is_none() { res = b(); }` has two definitions of
+        `res`, but only a()'s is in force at the test)."""
+        bb, j = at if isinstance(at, tuple) else (at, None)
+        key = (l, bb, j)
+        cache = self.__dict__.setdefault("_reaching", {})
+        if key in cache:
+            return cache[key]
+        ds = self.defs().get(l, [])
+        same = [d for d in ds if d[0] == "stmt" and d[1] == bb and (j is None or d[2] < j)]
+        if same:
+            out = [max(same, key=lambda d: d[2])]
+        else:
+            out = []
+            blocks = {d[1] for d in ds}
+            for d in ds:
+                others = {b for b in blocks if b != d[1]}
+                starts = [t for _, t in self.succs(d[1])] if d[0] == "call" else [d[1]]
+                ok = False
+                for s0 in starts:
+                    if d[0] == "call":
+                        r = self.reachable(s0, cut_blocks=others - {bb})
+                    else:
+                        r = self.reachable(s0, cut_blocks=others - {bb})
+                    if bb in r and (d[1] != bb or d[0] == "call" or (j is not None and d[2] >= j)):
+                        # a def later in the same block reaches only around a loop; same rule as any other block
+                        ok = True
+                if ok:
+                    # reaching the point through a block that redefines l does not count, unless that block is the point's own block
+                    # (the redefinition there comes after the point, or is handled by `same`)
+                    out.append(d)
+        cache[key] = out
+        return out
+
+    def apath_place(self, pl, depth=16, at=None):
         """(root, projs): root is ('arg', n) | ('call', callee_path, (arg apaths...), bb) | ('local', l) |
         ('const', text) | ('rv', kind, ...); projs is a tuple of field / variant names (derefs dropped)."""
         projs = []
@@ -441,13 +476,19 @@ class Fn:
         ds = self.defs().get(l, [])
         if 1 <= l <= self.raw["arg_count"] and not ds:
             return (("arg", l), tuple(projs))
+        if len(ds) > 1 and at is not None and depth > 0:
+            rd = self.reaching(l, at)
+            if len(rd) == 1:
+                ds = rd
         if len(ds) != 1 or depth <= 0:
             return (("local", l), tuple(projs))
         d = ds[0]
+        if at is not None:
+            at = (d[1], d[2]) if d[0] == "stmt" else (d[1], None)
         if d[0] == "call":
             t = d[2]
             name = callee_name(t["callee"]) if "callee" in t else "<indirect>"
-            args = tuple(self.apath(a, depth - 1) for a in t["args"])
+            args = tuple(self.apath(a, depth - 1, at) for a in t["args"])
             if len(args) == 1 and name.endswith(TRANSPARENT):
                 return (args[0][0], args[0][1] + tuple(projs))
             if name.endswith("Try>::branch") and len(args) == 1 and tuple(projs[:2]) == ("as Continue", "0") and args[0][0][0] == "local" and not args[0][1]:
@@ -460,24 +501,24 @@ class Fn:
         rv = d[3]
         k = rv["k"]
         if k == "use" or (k == "cast" and (rv["ck"].startswith("PointerCoercion") or rv["ck"] in ("PtrToPtr", "Transmute"))):
-            base = self.apath(rv["a"], depth - 1)
+            base = self.apath(rv["a"], depth - 1, at)
             return self._select(base, projs)
         if k in ("ref", "rawptr"):
-            base = self.apath_place(rv["place"], depth - 1)
+            base = self.apath_place(rv["place"], depth - 1, at)
             return self._select(base, projs)
         if k == "agg":
             name = rv["agg"] if rv["agg"] != "adt" else rv["adt"] + "::" + rv["variant"]
             if rv["agg"] == "closure":
                 name = "closure:" + rv["closure"]["path"]
-            return self._select((("agg", name, tuple(self.apath(o, depth - 1) for o in rv["ops"]), d[1]), ()), projs)
+            return self._select((("agg", name, tuple(self.apath(o, depth - 1, at) for o in rv["ops"]), d[1]), ()), projs)
         if k == "binop":
-            return (("binop", rv["op"], self.apath(rv["a"], depth - 1), self.apath(rv["b"], depth - 1)), tuple(projs))
+            return (("binop", rv["op"], self.apath(rv["a"], depth - 1, at), self.apath(rv["b"], depth - 1, at)), tuple(projs))
         if k == "unop":
-            return (("unop", rv["op"], self.apath(rv["a"], depth - 1)), tuple(projs))
+            return (("unop", rv["op"], self.apath(rv["a"], depth - 1, at)), tuple(projs))
         if k == "cast":
-            return (("cast", rv["ck"], self.apath(rv["a"], depth - 1), rv["to"]), tuple(projs))
+            return (("cast", rv["ck"], self.apath(rv["a"], depth - 1, at), rv["to"]), tuple(projs))
         if k == "discr":
-            return (("discr", self.apath_place(rv["place"], depth - 1)), tuple(projs))
+            return (("discr", self.apath_place(rv["place"], depth - 1, at)), tuple(projs))
         return (("rv", k, d[1], d[2]), tuple(projs))
 
     def _success_payload(self, l, depth):
@@ -529,7 +570,7 @@ class Fn:
                 break
         return (root, projs)
 
-    def apath(self, op, depth=16):
+    def apath(self, op, depth=16, at=None):
         c = const_of(op)
         if c is not None:
             if "int" in c:
@@ -540,7 +581,7 @@ class Fn:
         pl = place_of(op)
         if pl is None:
             return (("unknown",), ())
-        return self.apath_place(pl, depth)
+        return self.apath_place(pl, depth, at)
 
     def guards_of(self, bb):
         """Necessary branch edges: [(switch_bb, label, info)] such that `bb` is unreachable from the
@@ -568,13 +609,13 @@ class Fn:
                 named = {info["variants"].get(v) for v, _ in info["targets"]}
                 rest = [n for n in info["variants"].values() if n not in named]
                 name = rest[0] if len(rest) == 1 else "otherwise(" + "|".join(rest) + ")"
-            return ("variant", self.apath_place(info["place"]), info["enum"], name)
+            return ("variant", self.apath_place(info["place"], 16, (s, None)), info["enum"], name)
         if info["kind"] == "bool":
             t = self.blocks[s]["term"]
             val = (lab != 0)
-            return ("bool", self.apath(t["discr"]), val)
+            return ("bool", self.apath(t["discr"], 16, (s, None)), val)
         t = self.blocks[s]["term"]
-        return ("int", self.apath(t["discr"]), lab)
+        return ("int", self.apath(t["discr"], 16, (s, None)), lab)
 
     def switch_info(self, bb):
         """For a switch terminator: what is tested. Returns dict with
